@@ -562,11 +562,11 @@ Proof.
     destruct Hin as [Hin|[]]. inversion Hin; subst. clear Hin.
     assert (Hbb : both = true -> edir e = true).
     { intros ->. cbn in Hb. destruct (edir e); [reflexivity|discriminate]. }
-    repeat split; try assumption.
+    repeat split; try assumption; try reflexivity.
     destruct (N.eqb_spec (eto e) cur) as [Ht|Ht].
     + left. split; [reflexivity|assumption].
     + cbn [orb] in Hc. apply andb_true_iff in Hc. destruct Hc as [Hd Hf].
-      apply N.eqb_eq in Hf. destruct (edir e); [discriminate|]. right. repeat split; reflexivity || assumption.
+      apply N.eqb_eq in Hf. destruct (edir e) eqn:Hdir; [discriminate Hd|]. right. repeat split; reflexivity || assumption.
   - intros (e & Hg & <- & Hok & Hd & Hb). exists e.
     assert (Hin : in_in_list e cur = true).
     { unfold in_in_list. destruct Hd as [[_ <-]|(Hd & _ & <-)]; [rewrite N.eqb_refl; reflexivity|rewrite Hd, N.eqb_refl; cbn; apply orb_true_r]. }
@@ -621,9 +621,310 @@ Proof.
         -- left. apply HA. exists e. rewrite Hok. repeat split; try tauto.
            destruct H5 as [[Hw Hu]|(_ & Hw & Hu)]; [right; tauto|left; tauto].
   - (* no such direction *)
-    assert (F0 : N.eqb (vdir c) 0 = false) by (apply N.eqb_neq; assumption).
-    assert (F1 : N.eqb (vdir c) 1 = false) by (apply N.eqb_neq; assumption).
-    assert (F2 : N.eqb (vdir c) 2 = false) by (apply N.eqb_neq; assumption).
-    rewrite F0, F1, F2. cbn [orb]. split; [intros [[]|[]]|].
+    cbn [orb]. split; [intros [[]|[]]|].
     intros (e & _ & _ & _ & _ & [[H _]|[[H _]|[H _]]]); contradiction.
+Qed.
+
+(* one step a variable-length match may take from u: an existing edge of an allowed type passing the
+   edge filter, followed in the configured direction *)
+Definition vstep (g : graph) (c : vcfg) (u : N) (s : N * N) : Prop :=
+  exists e, In e (gedges g) /\ eid e = snd s /\ type_ok (vtypes c) e = true /\ edge_ok (vfilt_of c) e = true
+            /\ dstep (vdir c) e u (fst s).
+Fixpoint qwalk (g : graph) (c : vcfg) (to : N) (visited : list N) (cur : N) (steps : list (N * N)) : Prop :=
+  match steps with
+  | [] => True
+  | s :: r =>
+      vstep g c cur s /\ (vcycles c = false -> ~ In (fst s) visited)
+      /\ (fst s <> to -> node_ok g (vfilt_of c) (fst s) = true)
+      /\ qwalk g c to (if vcycles c then visited else fst s :: visited) (fst s) r
+  end.
+Lemma okwalk_qwalk g c to steps : forall visited cur, okwalk g c to visited cur steps <-> qwalk g c to visited cur steps.
+Proof.
+  induction steps as [|[w e] r IH]; intros visited cur; cbn [okwalk qwalk fst]; [tauto|].
+  rewrite IH. unfold vstep. cbn [fst snd]. rewrite vp_succs_spec. tauto.
+Qed.
+
+Definition var_qualifies (g : graph) (c : vcfg) (from to : N) (p : list N * list N) : Prop :=
+  exists steps, vmin c <= N.of_nat (length steps) /\ N.of_nat (length steps) <= vmax c
+    /\ qwalk g c to (if vcycles c then [] else [from]) from steps /\ end_of from steps = to
+    /\ p = (from :: map fst steps, map snd steps).
+
+Theorem var_paths_exact g c from to :
+  match find_variable_paths g c from to with
+  | VOk ps =>
+      node_exists g from = true /\ node_exists g to = true /\
+      (forall p, In p ps -> var_qualifies g c from to p) /\
+      ((length ps < N.to_nat (vmaxpaths c))%nat -> forall p, var_qualifies g c from to p -> In p ps)
+  | VNoNode n => (node_exists g from = false /\ n = from) \/ (node_exists g from = true /\ node_exists g to = false /\ n = to)
+  | VErr => False
+  end.
+Proof.
+  unfold find_variable_paths.
+  destruct (node_exists g from) eqn:Hf; cbn [negb]; [|left; split; reflexivity].
+  destruct (node_exists g to) eqn:Ht; cbn [negb]; [|right; repeat split; reflexivity].
+  set (init := if vcycles c then [] else [from]).
+  set (zero := if N.eqb from to && N.eqb (vmin c) 0 then [([from], [])] else []).
+  set (lo := N.max (vmin c) 1).
+  set (depths := map (fun k => N.to_nat (lo + k)) (N_seq (N.succ (vmax c) - lo))).
+  set (all := flat_map (fun d => vp_dfs g c to d from init [from] []) depths).
+  assert (HL : forall p, In p (zero ++ all) <-> var_qualifies g c from to p).
+  { intros p. rewrite in_app_iff. unfold var_qualifies. split.
+    - intros [Hz|Ha].
+      + unfold zero in Hz. destruct (N.eqb_spec from to) as [E|E]; cbn [andb] in Hz; [|destruct Hz].
+        destruct (N.eqb_spec (vmin c) 0) as [E0|E0]; [|destruct Hz]. destruct Hz as [<-|[]].
+        exists []. cbn. repeat split; try lia; try assumption.
+      + unfold all in Ha. apply in_flat_map in Ha. destruct Ha as (d & Hd & Hin).
+        unfold depths in Hd. apply in_map_iff in Hd. destruct Hd as (k & <- & Hk). apply N_seq_In in Hk.
+        apply vp_dfs_spec in Hin. destruct Hin as (steps & L & Hok & Hend & ->).
+        exists steps. apply okwalk_qwalk in Hok. fold init. repeat split; try assumption; try lia.
+    - intros (steps & Hlo & Hhi & Hq & Hend & ->).
+      destruct steps as [|s0 steps0] eqn:Hs.
+      + left. cbn in Hend, Hlo. unfold zero. subst to. rewrite N.eqb_refl.
+        assert (E0 : vmin c = 0) by lia. rewrite E0. cbn. left. reflexivity.
+      + right. rewrite <- Hs in *. unfold all. apply in_flat_map. exists (length steps). split.
+        * unfold depths. apply in_map_iff. exists (N.of_nat (length steps) - lo). split.
+          -- assert (1 <= N.of_nat (length steps)) by (rewrite Hs; cbn [length]; lia). lia.
+          -- apply N_seq_In. assert (1 <= N.of_nat (length steps)) by (rewrite Hs; cbn [length]; lia). lia.
+        * apply vp_dfs_spec. exists steps. repeat split; try assumption. apply okwalk_qwalk. assumption. }
+  destruct (N.eqb from to && N.eqb (vmin c) 0 && N.eqb (vmax c) 0) eqn:Hsp.
+  - (* the early return: max_hops = 0 *)
+    apply andb_true_iff in Hsp. destruct Hsp as [_ Hmx]. apply N.eqb_eq in Hmx.
+    assert (Hall : all = []).
+    { unfold all, depths. replace (N.succ (vmax c) - lo) with 0 by lia. reflexivity. }
+    rewrite Hall, app_nil_r in HL. repeat split; intros; apply HL; assumption.
+  - repeat split.
+    + intros p Hp. apply HL. eapply firstn_incl. eassumption.
+    + intros Hlen p Hp. rewrite (firstn_short _ _ Hlen). apply HL. assumption.
+Qed.
+
+(* without allow_cycles the qualifying walks are simple paths *)
+Lemma qwalk_simple g c to : vcycles c = false -> forall steps visited cur,
+  qwalk g c to visited cur steps -> NoDup (map fst steps) /\ forall x, In x (map fst steps) -> ~ In x visited.
+Proof.
+  intros Hcy. induction steps as [|s r IH]; intros visited cur Hq; cbn [map].
+  - split; [constructor|intros x []].
+  - cbn [qwalk] in Hq. destruct Hq as (_ & Hv & _ & Hq). rewrite Hcy in Hq.
+    destruct (IH _ _ Hq) as [Hnd Hdis]. split.
+    + constructor; [|assumption]. intros Hin. apply (Hdis _ Hin). left. reflexivity.
+    + intros x [<-|Hx]; [apply Hv; assumption|]. intros Hxv. apply (Hdis x Hx). right. assumption.
+Qed.
+
+(* ------------------------------------------------------------------------------------------ *)
+(* traverse: level-synchronous search = exactly the nodes within the hop bound *)
+Section Levels.
+  Variable step : N -> list N.
+
+  Inductive nwalk : N -> nat -> N -> Prop :=
+  | nw_0 : forall u, nwalk u 0 u
+  | nw_S : forall u w n v, In w (step u) -> nwalk w n v -> nwalk u (S n) v.
+
+  Lemma nwalk_snoc u n w v : nwalk u n w -> In v (step w) -> nwalk u (S n) v.
+  Proof. induction 1; intros Hv; [econstructor; [eassumption|constructor]|econstructor; [eassumption|auto]]. Qed.
+  Lemma nwalk_last u n v : nwalk u (S n) v -> exists w, nwalk u n w /\ In v (step w).
+  Proof.
+    revert u v. induction n as [|n IH]; intros u v H; inversion H; subst.
+    - match goal with H1 : nwalk _ 0 _ |- _ => inversion H1; subst end. exists u. split; [constructor|assumption].
+    - match goal with H1 : nwalk _ (S n) _ |- _ => destruct (IH _ _ H1) as (x & Hx & Hin) end.
+      exists x. split; [econstructor; eassumption|assumption].
+  Qed.
+
+  Definition ball (start : N) (k : nat) (v : N) : Prop := exists n, (n <= k)%nat /\ nwalk start n v.
+
+  Lemma add_new_spec : forall xs seen seen' nw, add_new seen xs = (seen', nw) ->
+    seen' = seen ++ nw /\ (forall v, In v nw <-> In v xs /\ ~ In v seen).
+  Proof.
+    induction xs as [|x xs IH]; intros seen seen' nw H; cbn [add_new] in H.
+    - inversion H; subst. rewrite app_nil_r. split; [reflexivity|]. intros v. cbn. tauto.
+    - destruct (mem x seen) eqn:Hm.
+      + apply mem_In in Hm. destruct (IH _ _ _ H) as [E Hn]. split; [assumption|].
+        intros v. rewrite Hn. cbn [In]. split; [tauto|]. intros [[<-|Hv] Hns]; [contradiction|tauto].
+      + apply mem_nIn in Hm. destruct (add_new (seen ++ [x]) xs) as [s1 n1] eqn:Hr. inversion H; subst.
+        destruct (IH _ _ _ Hr) as [E Hn]. split; [rewrite E, <- app_assoc; reflexivity|].
+        intros v. cbn [In]. rewrite Hn, in_app_iff. cbn [In]. split.
+        * intros [<-|[Hv Hns]]; [tauto|]. split; [tauto|]. intros Hs. apply Hns. left. assumption.
+        * intros [[<-|Hv] Hns]; [left; reflexivity|].
+          destruct (N.eq_dec x v) as [->|Hne]; [left; reflexivity|]. right. split; [assumption|].
+          intros [Hs|[Hs|[]]]; [contradiction|congruence].
+  Qed.
+
+  (* seen = ball k, prev = ball (k-1), frontier = seen minus prev *)
+  Record LI (start : N) (k : nat) (prev seen frontier : list N) : Prop := {
+    l_seen : forall v, In v seen <-> ball start k v;
+    l_prev : forall v, In v prev <-> exists n, (n < k)%nat /\ nwalk start n v;
+    l_front : forall v, In v frontier <-> In v seen /\ ~ In v prev
+  }.
+
+  Lemma LI_next start k prev seen frontier seen' nw :
+    LI start k prev seen frontier -> add_new seen (flat_map step frontier) = (seen', nw) ->
+    LI start (S k) seen seen' nw.
+  Proof.
+    intros [Hs Hp Hf] Ha. destruct (add_new_spec _ _ _ _ Ha) as [E Hn]. constructor.
+    - intros v. rewrite E, in_app_iff, Hn, in_flat_map. split.
+      + intros [Hv|[(u & Hu & Hin) _]].
+        * apply Hs in Hv. destruct Hv as (n & Hle & W). exists n. split; [lia|assumption].
+        * apply Hf in Hu. destruct Hu as [Hu _]. apply Hs in Hu. destruct Hu as (n & Hle & W).
+          exists (S n). split; [lia|]. eapply nwalk_snoc; eassumption.
+      + intros (n & Hle & W). destruct (in_dec N.eq_dec v seen) as [Hv|Hv]; [left; assumption|right].
+        split; [|assumption].
+        destruct n as [|n]; [exfalso; apply Hv; apply Hs; exists 0%nat; split; [lia|assumption]|].
+        destruct (nwalk_last _ _ _ W) as (u & Wu & Hin). exists u. split; [|assumption].
+        apply Hf. split.
+        * apply Hs. exists n. split; [lia|assumption].
+        * intros Hup. apply Hp in Hup. destruct Hup as (m & Hlt & Wm). apply Hv. apply Hs.
+          exists (S m). split; [lia|]. eapply nwalk_snoc; eassumption.
+    - intros v. rewrite Hs. unfold ball. split; intros (n & Hn' & W); exists n; (split; [lia|assumption]).
+    - intros v. rewrite Hn, E, in_app_iff, Hn. tauto.
+  Qed.
+
+  (* once a round adds nothing, no longer walk reaches anything new *)
+  Lemma closed_ball start k seen : (forall v, In v seen <-> ball start k v) ->
+    (forall v, ball start (S k) v -> In v seen) -> forall j v, ball start (k + j) v -> In v seen.
+  Proof.
+    intros Hs Hc. induction j as [|j IH]; intros v (n & Hle & W).
+    - apply Hs. exists n. split; [lia|assumption].
+    - destruct (Nat.le_gt_cases n (k + j)) as [H|H]; [apply IH; exists n; split; assumption|].
+      assert (n = S (k + j)) by lia. subst n. destruct (nwalk_last _ _ _ W) as (u & Wu & Hin).
+      assert (Hu : In u seen) by (apply IH; exists (k + j)%nat; split; [lia|assumption]).
+      apply Hs in Hu. destruct Hu as (m & Hm & Wm). apply Hc. exists (S m). split; [lia|]. eapply nwalk_snoc; eassumption.
+  Qed.
+
+  Lemma tr_levels_spec start : forall depth k prev seen frontier,
+    LI start k prev seen frontier ->
+    forall v, In v (tr_levels step depth seen frontier) <-> ball start (k + depth) v.
+  Proof.
+    induction depth as [|depth IH]; intros k prev seen frontier I v; cbn [tr_levels].
+    - rewrite Nat.add_0_r. apply (l_seen _ _ _ _ _ I).
+    - destruct (add_new seen (flat_map step frontier)) as [seen' nw] eqn:Ha.
+      pose proof (LI_next _ _ _ _ _ _ _ I Ha) as I'.
+      destruct nw as [|x nw].
+      + (* nothing new: the ball has stopped growing *)
+        destruct (add_new_spec _ _ _ _ Ha) as [E _]. rewrite app_nil_r in E. subst seen'.
+        split.
+        * intros Hv. apply (l_seen _ _ _ _ _ I) in Hv. destruct Hv as (n & Hle & W). exists n. split; [lia|assumption].
+        * intros Hb. apply (closed_ball start k seen (l_seen _ _ _ _ _ I)) with (j := S depth); [|assumption].
+          intros u Hu. apply (l_seen _ _ _ _ _ I'). assumption.
+      + rewrite (IH (S k) seen seen' (x :: nw) I' v). replace (S k + depth)%nat with (k + S depth)%nat by lia. tauto.
+  Qed.
+
+  Theorem levels_exact start depth v :
+    In v (tr_levels step depth [start] [start]) <-> ball start depth v.
+  Proof.
+    apply (tr_levels_spec start depth 0 []). constructor.
+    - intros u. split.
+      + intros [<-|[]]. exists 0%nat. split; [lia|constructor].
+      + intros (n & Hle & W). assert (n = 0%nat) by lia. subst n. inversion W; subst. left. reflexivity.
+    - intros u. split; [intros []|]. intros (n & Hlt & _). lia.
+    - intros u. cbn [In]. tauto.
+  Qed.
+End Levels.
+
+Lemma insert_sorted_In x y l : In x (insert_sorted y l) <-> x = y \/ In x l.
+Proof.
+  induction l as [|z l IH]; cbn [insert_sorted In]; [intuition|].
+  destruct (N.leb y z); cbn [In]; [intuition|]. rewrite IH. intuition.
+Qed.
+Lemma sort_N_In x l : In x (sort_N l) <-> In x l.
+Proof.
+  unfold sort_N. induction l as [|y l IH]; cbn [fold_right In]; [tauto|].
+  rewrite insert_sorted_In, IH. intuition.
+Qed.
+
+(* one hop traverse may take from u: an existing edge of the requested type passing the edge filter,
+   followed in the requested direction, to a different node *)
+Definition tstep (g : graph) (dir : N) (ty : option N) (f : filt) (u w : N) : Prop :=
+  w <> u /\ exists e, In e (gedges g) /\ match ty with Some t => ety e = t | None => True end
+                      /\ edge_ok f e = true /\ dstep dir e u w.
+
+Lemma tr_succs_spec g dir ty f cur w : In w (tr_succs g dir ty f cur) <-> tstep g dir ty f cur w.
+Proof.
+  unfold tr_succs, tstep. cbv zeta beta. rewrite filter_In, in_app_iff.
+  set (tok := fun e : edge => match ty with Some t => N.eqb (ety e) t | None => true end).
+  assert (Htok : forall e, tok e = true <-> match ty with Some t => ety e = t | None => True end).
+  { intros e. unfold tok. destruct ty; [apply N.eqb_eq|tauto]. }
+  assert (HA : In w (flat_map (fun e => if tok e && edge_ok f e then
+                       (if N.eqb (efrom e) cur then [eto e] else []) ++
+                       (if negb (edir e) && N.eqb (eto e) cur then [efrom e] else []) else []) (out_list g cur))
+               <-> exists e, In e (gedges g) /\ tok e = true /\ edge_ok f e = true /\ dir_step e cur w).
+  { rewrite in_flat_map. split.
+    - intros (e & He & Hin). unfold out_list in He. apply filter_In in He. destruct He as [Hg _].
+      destruct (tok e && edge_ok f e) eqn:Hok; [|destruct Hin]. apply andb_true_iff in Hok. destruct Hok as [H1 H2].
+      exists e. repeat split; try assumption. apply in_app_or in Hin. destruct Hin as [Hin|Hin].
+      + destruct (N.eqb_spec (efrom e) cur) as [Hf|]; [|destruct Hin]. destruct Hin as [<-|[]]. left. split; [assumption|reflexivity].
+      + destruct (edir e) eqn:Hd; cbn [negb andb] in Hin; [destruct Hin|].
+        destruct (N.eqb_spec (eto e) cur) as [Ht|]; [|destruct Hin]. destruct Hin as [<-|[]]. right. repeat split; reflexivity || assumption.
+    - intros (e & Hg & H1 & H2 & Hd). exists e. split.
+      + unfold out_list. apply filter_In. split; [assumption|]. unfold in_out_list.
+        destruct Hd as [[<- _]|(Hd & <- & _)]; [rewrite N.eqb_refl; reflexivity|rewrite Hd, N.eqb_refl; cbn; apply orb_true_r].
+      + rewrite H1, H2. cbn [andb]. apply in_or_app. destruct Hd as [[Hu Hw]|(Hd & Hu & Hw)].
+        * left. rewrite Hu, N.eqb_refl. left. assumption.
+        * right. rewrite Hd, Hu, N.eqb_refl. cbn. left. assumption. }
+  assert (HB : In w (flat_map (fun e => if tok e && edge_ok f e then
+                       (if N.eqb (eto e) cur then [efrom e] else []) ++
+                       (if negb (edir e) && N.eqb (efrom e) cur then [eto e] else []) else []) (in_list g cur))
+               <-> exists e, In e (gedges g) /\ tok e = true /\ edge_ok f e = true /\ dir_step e w cur).
+  { rewrite in_flat_map. split.
+    - intros (e & He & Hin). unfold in_list in He. apply filter_In in He. destruct He as [Hg _].
+      destruct (tok e && edge_ok f e) eqn:Hok; [|destruct Hin]. apply andb_true_iff in Hok. destruct Hok as [H1 H2].
+      exists e. repeat split; try assumption. apply in_app_or in Hin. destruct Hin as [Hin|Hin].
+      + destruct (N.eqb_spec (eto e) cur) as [Ht|]; [|destruct Hin]. destruct Hin as [<-|[]]. left. split; [reflexivity|assumption].
+      + destruct (edir e) eqn:Hd; cbn [negb andb] in Hin; [destruct Hin|].
+        destruct (N.eqb_spec (efrom e) cur) as [Hf|]; [|destruct Hin]. destruct Hin as [<-|[]]. right. repeat split; reflexivity || assumption.
+    - intros (e & Hg & H1 & H2 & Hd). exists e. split.
+      + unfold in_list. apply filter_In. split; [assumption|]. unfold in_in_list.
+        destruct Hd as [[_ <-]|(Hd & _ & <-)]; [rewrite N.eqb_refl; reflexivity|rewrite Hd, N.eqb_refl; cbn; apply orb_true_r].
+      + rewrite H1, H2. cbn [andb]. apply in_or_app. destruct Hd as [[Hw Hu]|(Hd & Hw & Hu)].
+        * left. rewrite Hu, N.eqb_refl. left. assumption.
+        * right. rewrite Hd, Hu, N.eqb_refl. cbn. left. assumption. }
+  unfold tok in HA, HB. cbv beta in HA, HB. unfold dstep.
+  assert (Hne : negb (N.eqb w cur) = true <-> w <> cur).
+  { destruct (N.eqb_spec w cur); cbn; split; congruence. }
+  rewrite Hne.
+  destruct (N.eqb_spec dir 0) as [->|N0]; [|destruct (N.eqb_spec dir 1) as [->|N1]; [|destruct (N.eqb_spec dir 2) as [->|N2]]];
+    cbn [N.eqb orb].
+  - change (N.eqb 0 0) with true. change (N.eqb 0 1) with false. change (N.eqb 0 2) with false. cbn [orb]. rewrite HA. split.
+    + intros [[(e & H1 & H2 & H3 & H4)|[]] Hw]. split; [assumption|]. exists e. pose proof (proj1 (Htok e) H2). tauto.
+    + intros [Hw (e & H1 & H2 & H3 & [[_ H4]|[[H4 _]|[H4 _]]])]; try discriminate H4.
+      split; [|assumption]. left. exists e. pose proof (proj2 (Htok e) H2). tauto.
+  - change (N.eqb 1 1) with true. change (N.eqb 1 0) with false. change (N.eqb 1 2) with false. cbn [orb]. rewrite HB. split.
+    + intros [[[]|(e & H1 & H2 & H3 & H4)] Hw]. split; [assumption|]. exists e. pose proof (proj1 (Htok e) H2). tauto.
+    + intros [Hw (e & H1 & H2 & H3 & [[H4 _]|[[_ H4]|[H4 _]]])]; try discriminate H4.
+      split; [|assumption]. right. exists e. pose proof (proj2 (Htok e) H2). tauto.
+  - change (N.eqb 2 2) with true. change (N.eqb 2 0) with false. change (N.eqb 2 1) with false. cbn [orb]. rewrite HA, HB. split.
+    + intros [[(e & H1 & H2 & H3 & H4)|(e & H1 & H2 & H3 & H4)] Hw]; (split; [assumption|]); exists e; pose proof (proj1 (Htok e) H2); tauto.
+    + intros [Hw (e & H1 & H2 & H3 & [[H4 _]|[[H4 _]|[_ [H4|H4]]]])]; try discriminate H4;
+        (split; [|assumption]); [left|right]; exists e; pose proof (proj2 (Htok e) H2); tauto.
+  - cbn [orb]. split; [intros [[[]|[]] _]|]. intros [_ (e & _ & _ & _ & [[H _]|[[H _]|[H _]]])]; contradiction.
+Qed.
+
+Inductive rnw (R : N -> N -> Prop) : N -> nat -> N -> Prop :=
+| rnw_0 : forall u, rnw R u 0 u
+| rnw_S : forall u w n v, R u w -> rnw R w n v -> rnw R u (S n) v.
+Lemma nwalk_rnw step (R : N -> N -> Prop) : (forall u w, In w (step u) <-> R u w) ->
+  forall u n v, nwalk step u n v <-> rnw R u n v.
+Proof.
+  intros H u n v. split; induction 1; try constructor; econstructor; try eassumption; apply H; assumption.
+Qed.
+
+Theorem traverse_exact g dir depth ty fo start :
+  let f := match fo with Some f => f | None => no_filt end in
+  match traverse g (dir, depth, ty, fo) start with
+  | TOk _ ns =>
+      node_exists g start = true /\
+      forall v, In v ns <-> (v = start \/ node_ok g f v = true)
+                          /\ exists n, (n <= N.to_nat depth)%nat /\ rnw (tstep g dir ty f) start n v
+  | TNoNode n => node_exists g start = false /\ n = start
+  | TErr => False
+  end.
+Proof.
+  cbn zeta. unfold traverse. set (f := match fo with Some f => f | None => no_filt end).
+  destruct (node_exists g start) eqn:Hs; cbn [negb]; [|split; reflexivity].
+  split; [reflexivity|]. intros v. rewrite sort_N_In, filter_In, levels_exact.
+  pose proof (nwalk_rnw (tr_succs g dir ty f) (tstep g dir ty f) (fun u w => tr_succs_spec g dir ty f u w)) as WR.
+  unfold ball. split.
+  - intros [(n & Hle & W) Hok]. split.
+    + apply orb_true_iff in Hok. destruct Hok as [Hok|Hok]; [left; apply N.eqb_eq; assumption|right; assumption].
+    + exists n. split; [assumption|apply WR; assumption].
+  - intros [Hok (n & Hle & W)]. split.
+    + exists n. split; [assumption|apply WR; assumption].
+    + apply orb_true_iff. destruct Hok as [->|Hok]; [left; apply N.eqb_refl|right; assumption].
 Qed.
